@@ -59,6 +59,8 @@ pub fn drive_nfs(ops: &str, trace: &str) {
         let mut e: Map<String, Value> = op.as_object().unwrap().clone();
         e.insert("run".into(), json!(run.run));
         let f = op["f"].as_i64().unwrap_or(0);
+        // should_refresh: (now relative to the run start, leeway, answer)
+        let sr = std::cell::Cell::new((0u64, 0i64, 0u8));
         let r = guarded(|| -> Result<Option<(u64, bool)>, String> {
             let io = |e: std::io::Error| format!("{:?}", e.kind());
             match ev.as_str() {
@@ -125,6 +127,15 @@ pub fn drive_nfs(ops: &str, trace: &str) {
                     let (b, v) = nv::get_base_time(now).map_err(io)?;
                     Ok(Some((b, check_pair(b, v))))
                 }
+                "should_refresh" => {
+                    // pure policy: is the base time older than the leeway, and is there anything to refresh from?
+                    let now = time::OffsetDateTime::now_utc() + time::Duration::milliseconds(geti(op, "off"));
+                    let lee = geti(op, "leeway");
+                    let ans = nv::should_refresh_base_time(if lee < 0 { None } else { Some(lee as u64) }, Some(now));
+                    let now_ms = (now.unix_timestamp_nanos() / 1_000_000) as u64;
+                    sr.set((rel(now_ms), lee, ans as u8));
+                    Ok(None)
+                }
                 "get_unlocked" => {
                     let (b, v) = nv::get_base_time_unlocked(time::OffsetDateTime::now_utc()).map_err(io)?;
                     Ok(Some((b, check_pair(b, v))))
@@ -151,6 +162,10 @@ pub fn drive_nfs(ops: &str, trace: &str) {
                 Err(_) => json!({"f": id, "dev": "?", "ctime": 0, "mtime": 0}),
             })
             .collect();
+        let (sr_now, sr_lee, sr_ans) = sr.get();
+        e.insert("sr_now".into(), json!(sr_now));
+        e.insert("sr_leeway".into(), json!(sr_lee));
+        e.insert("sr_ans".into(), json!(sr_ans));
         e.insert("files".into(), json!(files));
         let (b, v) = nv::get_base_time_unlocked(time::OffsetDateTime::now_utc()).expect("unlocked");
         e.insert("base".into(), json!(rel(b)));
